@@ -5,3 +5,5 @@ import ChibiVerif.Props.C07
 import ChibiVerif.Findings.C07
 import ChibiVerif.Props.C11
 import ChibiVerif.Findings.C11
+import ChibiVerif.Props.C14
+import ChibiVerif.Findings.C14
